@@ -53,5 +53,10 @@ def standins(tier, seed):
     else:
         cfgs = [dict(p=2, q=0, r=1, random=8), dict(p=3, random=8), dict(p=1, q=1, random=8), dict(name='2DPGA', random=6),
                 dict(p=2, q=2, random=5), dict(p=3, q=0, r=1, random=5), dict(name='3DPGA', random=4), dict(p=4, q=1, random=3)]
-    return [{'name': f'storage#{i}', 'bound': 'seeded operand pairs per configuration; variants same / permuted / zero-padded+permuted / asfullmv(canonical) / asfullmv(binary) on either operand',
-             'job': {'kind': 'storage', 'module': 'standins.jobs2', 'ops': ops, 'configs': [c], 'seed': seed + i}} for i, c in enumerate(cfgs)]
+    # 5-D: code generation for inverses / sandwiches of 32-blade operands takes tens of minutes; linear and bilinear operators only
+    heavy = {'inv', 'div', 'sw', 'proj', 'outerexp', 'outersin', 'outercos'}
+    d_of = lambda c: c.get('p', 0) + c.get('q', 0) + c.get('r', 0)
+    return [{'name': f'storage#{i}', 'bound': 'seeded operand pairs per configuration; variants same / permuted / zero-padded+permuted / asfullmv(canonical) / asfullmv(binary) on either operand'
+                                              + ('; without ' + ', '.join(sorted(heavy)) if d_of(c) >= 5 else ''),
+             'job': {'kind': 'storage', 'module': 'standins.jobs2', 'ops': [o for o in ops if d_of(c) < 5 or o not in heavy], 'configs': [c], 'seed': seed + i}}
+            for i, c in enumerate(cfgs)]
